@@ -25,9 +25,29 @@
    C08_ldlt_present_iff_no_zero_pivot; only hypothesis: `==` decides equality) and LDL^T is
    COMPLETE: every square symmetric positive definite input over any real field has a present
    result (C08_ldlt_complete; Proofs/C08P12.v, C08P13.v: a zero pivot at column j would make the
-   leading (j+1) x (j+1) block W D W^T with W of only j columns, hence singular).  Still not a
-   theorem: "never a panic" (the model's division is total; carried by the correspondence on the
-   element type StrictRat whose `/` panics on 0).
+   leading (j+1) x (j+1) block W D W^T with W of only j columns, hence singular).
+   DIVISION SAFETY (second extension wave; "never a panic" is now a theorem as far as division
+   is concerned): Model/DecompDiv.v holds the SAME transcriptions with every `/` of the source made
+   through a partial division `pd : R -> R -> option R` (None = the element type's `/` panics;
+   outcome Panic) at the place and in the order of the source.  C08_instrumented_erase ties them
+   to Model/Decomp.v (every theorem above transfers).  `strict_div ops` is None exactly on a
+   divisor `== zero`.  LDL^T: C08_ldlt_never_divides_by_zero (NO hypothesis: the only divisor is
+   the pivot just tested non-zero — the reordering of seed C08-u2 breaks exactly this);
+   Cholesky: C08_cholesky_never_divides_by_zero (ordered_sqrt_field; the only divisors are
+   sqrt(pivot) with pivot tested positive: C08_cholesky_divides_only_by_sqrt_of_positive);
+   QR: the only divisor of a reflection is the euclidean length of u
+   (C08_householder_divides_only_by_length); C08_qr_panics_exactly is the exact three-way
+   prediction absence / value / panic; over a real closed field a reflection divides by zero
+   exactly when its input sub-column is entirely zero, and then it is 0 / 0
+   (C08_qr_reflection_safe_iff_nonzero); inside the property's hypothesis (independent columns)
+   never (C08_qr_never_divides_by_zero_full_rank).  OUTSIDE it the code can hit a zero divisor:
+   exactly when, for some c < min(M-1, N), column c of the current R is zero from row c down
+   (e.g. a zero first column, or two proportional leading columns); f64 then returns Some factors
+   full of NaN, a type whose `/` panics panics (examples: C08_nonvacuous_division).  A
+   rank-deficient input whose dependent column is never reflected (the last column of a square
+   input) is processed without any division by zero.
+   The correspondence runs the instrumented models for element types 2 (StrictRat) and 3
+   (StrictRat0, sqrt stand-in zero at zero) and compares value / absence / panic.
    Everything else the property asks is proved: soundness, rejection and COMPLETENESS of Cholesky
    (present <-> positive definite, for symmetric square inputs over a real closed field),
    LDL^T soundness / rejection, and for QR: shapes, absence <-> N > M, Q^T Q = 1, Q R = A and R
@@ -40,7 +60,8 @@ From Coq Require Import PeanoNat List.
 From mathcomp Require Import all_ssreflect all_algebra.
 From EasyML Require Import Base.Sx Model.Num Model.LinAlg Model.Decomp
      Proofs.C07P1 Proofs.C08P1 Proofs.C08P2 Proofs.C08P3 Proofs.C08P5 Proofs.C08P7 Proofs.C08P4 Proofs.C08P6 Proofs.C08P8 Proofs.C08P9
-     Proofs.C08P10 Proofs.C08Ex Proofs.C08P11 Proofs.C08P12 Proofs.C08P13.
+     Proofs.C08P10 Proofs.C08Ex Proofs.C08P11 Proofs.C08P12 Proofs.C08P13
+     Model.DivOutcome Model.DecompDiv Proofs.C07Div Proofs.C08Div Proofs.C08Div2 Proofs.C08Div3.
 Import GRing.Theory Num.Theory.
 Local Open Scope ring_scope.
 
@@ -248,6 +269,130 @@ Example C08_nonvacuous_ldlt_complete : forall sq : rat -> rat,
   posdef (mxo sq (mrows spd_example) (mrows spd_example) spd_example).
 Proof. exact spd_example_ok. Qed.
 
+(* ================================================================== division safety *)
+(* the instrumented routines are the same routines: whenever one returns a value (no division
+   panicked) it is the result of the model above, for every partial division that agrees with
+   the dictionary's where defined; with the total division they never panic *)
+Theorem C08_instrumented_erase : forall (R : Type) (ops : numops R) (pd : R -> R -> option R)
+  (a : list (list R)),
+  sound_div ops pd ->
+  (forall r, cholesky_i ops pd a = Ok r -> cholesky ops a = r) /\
+  (forall r, ldlt_i ops pd a = Ok r -> ldlt ops a = r) /\
+  (forall r, qr_i ops pd a = Ok r -> qr ops a = r) /\
+  cholesky_i ops (total_div ops) a = Ok (cholesky ops a) /\
+  ldlt_i ops (total_div ops) a = Ok (ldlt ops a) /\
+  qr_i ops (total_div ops) a = Ok (qr ops a).
+Proof.
+  move=> R ops pd a Hs.
+  split; first by move=> r; exact: cholesky_i_erase.
+  split; first by move=> r; exact: ldlt_i_erase.
+  split; first by move=> r; exact: qr_i_erase.
+  split; [exact: cholesky_i_total|split; [exact: ldlt_i_total|exact: qr_i_total]].
+Qed.
+
+(* LDL^T divides only one by a value it has just tested `== zero` = false (the pivot D_jj of the
+   current column): a partial division defined on those pairs only is enough *)
+Theorem C08_ldlt_divides_only_by_tested_pivot : forall (R : Type) (ops : numops R)
+  (pd : R -> R -> option R) (a : list (list R)),
+  (forall y, neqb ops y (nzero ops) = false -> pd (none_ ops) y = Some (ndiv ops (none_ ops) y)) ->
+  ldlt_i ops pd a = Ok (ldlt ops a).
+Proof. move=> R ops pd a H. exact: ldlt_i_only. Qed.
+
+(* LDL^T NEVER divides by zero: any dictionary, any input, no hypothesis — a zero pivot is
+   answered with absence before any division by it *)
+Theorem C08_ldlt_never_divides_by_zero : forall (R : Type) (ops : numops R) (a : list (list R)),
+  ldlt_i ops (strict_div ops) a = Ok (ldlt ops a).
+Proof. exact @ldlt_i_strict. Qed.
+
+(* Cholesky divides only one by L_jj = sqrt e for an e it has tested `e <= zero` = false *)
+Theorem C08_cholesky_divides_only_by_sqrt_of_positive : forall (R : Type) (ops : numops R)
+  (pd : R -> R -> option R) (a : list (list R)),
+  (forall y, (exists e, nleb ops e (nzero ops) = false /\ y = nsqrt ops e) ->
+             pd (none_ ops) y = Some (ndiv ops (none_ ops) y)) ->
+  cholesky_i ops pd a = Ok (cholesky ops a).
+Proof. move=> R ops pd a H. exact: cholesky_i_only. Qed.
+
+(* Cholesky never divides by zero when the sqrt oracle has no zero on arguments tested positive
+   (first form), in particular over every ordered field with a sqrt oracle (0 < x -> 0 < sqrt x) *)
+Theorem C08_cholesky_never_divides_by_zero_oracle : forall (R : Type) (ops : numops R)
+  (a : list (list R)),
+  (forall e, nleb ops e (nzero ops) = false -> neqb ops (nsqrt ops e) (nzero ops) = false) ->
+  cholesky_i ops (strict_div ops) a = Ok (cholesky ops a).
+Proof. exact @cholesky_i_strict. Qed.
+
+Theorem C08_cholesky_never_divides_by_zero : forall (R : Type) (ops : numops R)
+  (lt : R -> R -> Prop) (a : list (list R)),
+  ordered_sqrt_field ops lt -> cholesky_i ops (strict_div ops) a = Ok (cholesky ops a).
+Proof. exact @cholesky_i_strict_osf. Qed.
+
+(* a Householder reflection divides the elements of u = x + a e (first to last) by the euclidean
+   length of u and by nothing else *)
+Theorem C08_householder_divides_only_by_length : forall (R : Type) (ops : numops R)
+  (pd : R -> R -> option R) (x : list R),
+  (forall e, List.In e (hh_u ops x) ->
+     pd e (euclidean_length ops (hh_u ops x)) = Some (ndiv ops e (euclidean_length ops (hh_u ops x)))) ->
+  householder_i ops pd x = Ok (householder ops x).
+Proof. exact @householder_i_only. Qed.
+
+(* QR, the exact three-way prediction for a type whose division panics on zero: absence exactly
+   when N > M; otherwise the value of the model when `qr_div_safe` (every reflection of the run
+   has an empty u or a length that is not `== zero`), and a panic otherwise.  Any dictionary. *)
+Theorem C08_qr_panics_exactly : forall (R : Type) (ops : numops R) (m : list (list R)),
+  qr_i ops (strict_div ops) m =
+  if Nat.ltb (mrows m) (mcols m) then Ok None
+  else if qr_div_safe ops m then Ok (qr ops m) else Panic.
+Proof. exact @qr_i_strict. Qed.
+
+(* real closed field, sqrt = Num.sqrt: ONE reflection is division-safe exactly when its input
+   (the part of column c of the current R from row c down) is empty or not the zero vector *)
+Theorem C08_qr_reflection_safe_iff_nonzero : forall (F : rcfType) (x : list F),
+  hh_safe (rops (@Num.sqrt F)) x = (x == [::] :> seq F) || (sumsq (rops (@Num.sqrt F)) x != 0).
+Proof. exact @hh_safe_rcf. Qed.
+
+(* any real field, any oracle: a regular run (no reflected u zero, oracle right on |u|^2) meets
+   no zero divisor *)
+Theorem C08_qr_regular_never_divides_by_zero : forall (F : realFieldType) (sq : F -> F)
+  (rows : nat) (cs : list nat) (r : list (list F)),
+  qr_regular sq rows cs r -> qr_loop_safe (rops sq) rows cs r.
+Proof. exact @regular_safe. Qed.
+
+(* inside the property's hypothesis — M >= N, linearly independent columns — QR never divides by
+   zero (real closed field, sqrt = Num.sqrt) *)
+Theorem C08_qr_never_divides_by_zero_full_rank : forall (F : rcfType) (rows cols : nat)
+  (m : list (list F)),
+  wf2 rows cols m -> (1 <= rows)%N -> (cols <= rows)%N ->
+  \rank (mxo (@Num.sqrt F) rows cols m) = cols ->
+  qr_i (rops (@Num.sqrt F)) (strict_div (rops (@Num.sqrt F))) m = Ok (qr (rops (@Num.sqrt F)) m).
+Proof. exact @qr_i_full_rank. Qed.
+
+(* non-vacuity of the division theorems (kernel evaluation; Proofs/C08Div3.v).  Over Qops0 (the
+   rationals with a sqrt stand-in that is zero at zero): a zero first column panics, a second
+   column that is a multiple of e_0 panics in the SECOND reflection, a rank-deficient square
+   input whose dependent column is the last one does not, a full-rank input does not; over Qops
+   (stand-in 23 at zero) the zero column does not panic.  On a type that cannot divide at all the
+   three routines panic at their first quotient and still answer absence where the source decides
+   absence before dividing. *)
+Example C08_nonvacuous_division :
+  (qr_i Qops0 (strict_div Qops0) ex_zero_col = Panic /\
+   qr_div_safe Qops0 ex_zero_col = false /\
+   qr_i Qops0 (strict_div Qops0) ex_second_step = Panic /\
+   qr_i Qops0 (strict_div Qops0) ex_rank_deficient_safe = Ok (qr Qops0 ex_rank_deficient_safe) /\
+   qr_i Qops0 (strict_div Qops0) ex_full_rank = Ok (qr Qops0 ex_full_rank) /\
+   qr_i Qops (strict_div Qops) ex_zero_col = Ok (qr Qops ex_zero_col)).
+Proof. exact qr_examples. Qed.
+
+(* no_div = a division that is never defined; ex_spd2 = [[4,2],[2,3]], ex_col34 = [[3],[4]],
+   ex_zero_first_pivot = [[0,2],[2,3]], ex_anti = [[0,1],[1,0]], ex_row = [[1,2,3]] *)
+Example C08_nonvacuous_division_evaluated :
+  cholesky_i Qops no_div ex_spd2 = Panic /\
+  ldlt_i Qops no_div ex_spd2 = Panic /\
+  qr_i Qops no_div ex_col34 = Panic /\
+  cholesky_i Qops no_div ex_zero_first_pivot = Ok None /\
+  ldlt_i Qops no_div ex_anti = Ok None /\
+  ldlt_i Qops no_div ex_row = Ok None /\
+  qr_i Qops no_div ex_row = Ok None.
+Proof. exact divisions_evaluated. Qed.
+
 Print Assumptions C08_cholesky_sound.
 Print Assumptions C08_cholesky_rejects.
 Print Assumptions C08_cholesky_rejects_first_pivot.
@@ -270,3 +415,14 @@ Print Assumptions C08_qr_triangular.
 Print Assumptions C08_qr_regular_of_full_rank.
 Print Assumptions C08_qr_full_rank.
 Print Assumptions C08_qr_reflection.
+Print Assumptions C08_instrumented_erase.
+Print Assumptions C08_ldlt_divides_only_by_tested_pivot.
+Print Assumptions C08_ldlt_never_divides_by_zero.
+Print Assumptions C08_cholesky_divides_only_by_sqrt_of_positive.
+Print Assumptions C08_cholesky_never_divides_by_zero_oracle.
+Print Assumptions C08_cholesky_never_divides_by_zero.
+Print Assumptions C08_householder_divides_only_by_length.
+Print Assumptions C08_qr_panics_exactly.
+Print Assumptions C08_qr_reflection_safe_iff_nonzero.
+Print Assumptions C08_qr_regular_never_divides_by_zero.
+Print Assumptions C08_qr_never_divides_by_zero_full_rank.
